@@ -26,9 +26,13 @@ MODULE_NS = {"src/wasm.rs": {"wasm::NAMESPACE_WASM"}, "src/bank.rs": {"bank::NAM
 # named exceptions (reason in DESIGN.md §5 C08.R3 / §6 observations)
 ROOT_STORE_EXCEPTIONS = {
     ("bank::BankKeeper::set_denom_metadata", "cw_storage_plus::Map::save"): "public admin function, the caller supplies the store",
-    ("<bank::BankKeeper as module::Module>::query", "cw_storage_plus::Map::may_load"): "DENOM_METADATA read from the root store: read-only, disjoint key space (recorded observation)",
-    ("<bank::BankKeeper as module::Module>::query", "cw_storage_plus::Map::keys"): "DENOM_METADATA keys from the root store: read-only (recorded observation)",
 }
+# .. and a stored item that is read where it is written (the recorded observation is about the *item*, whichever read operation of
+# cw-storage-plus the query uses for it)
+ROOT_ITEM_READS = {
+    ("<bank::BankKeeper as module::Module>::query", "bank::DENOM_METADATA"): "DENOM_METADATA read from the root store: read-only, disjoint key space (recorded observation)",
+}
+READ_OPS = {"may_load", "load", "has", "keys", "keys_raw", "range", "range_raw", "prefix", "sub_prefix", "prefix_range", "prefix_range_raw", "is_empty", "first", "last"}
 CONTRACT_METHODS = ("execute", "instantiate", "query", "sudo", "reply", "migrate")
 
 
@@ -289,6 +293,8 @@ def r3(ctx, cfg, R="C08.R3", files=None, floor=None):
                 if st[0] == "view" and args and peel(args[0])[0] == "item":
                     item_ns.setdefault(peel(args[0])[1], {}).setdefault(st[1], []).append("%s:%s" % (f.key.rsplit("::", 1)[-1], t["line"]))
                 exc = ROOT_STORE_EXCEPTIONS.get((f.key.split("::{closure")[0], c["key"]))
+                if exc is None and args and peel(args[0])[0] == "item" and c["name"] in READ_OPS and c["key"].startswith("cw_storage_plus::"):
+                    exc = ROOT_ITEM_READS.get((f.key.split("::{closure")[0], peel(args[0])[1]))
                 if st[0] == "view":
                     ok = st[1] in allowed
                     msg = "store operation on a view of %s inside %s" % (st[1], f.file)
